@@ -1,3 +1,144 @@
 import PysphVerif.Driver.Common
-/-! Line-protocol driver for C11 (stub: not built yet). -/
-def main : IO Unit := PysphVerif.Driver.loopPure (fun _ => "bad-op")
+import PysphVerif.Model.DumpLoad
+/-!
+Line protocol for C11 (values are exact rationals `p/q`; solver-data values are
+opaque tokens):
+
+  `rt fmt=<npz|hdf5|v1> det=<0|1> real=<0|1> comp=<0|1> [S <key>=<tok>]*
+      [A name=<s> nreal=<n> out=<names> [P name=<s> ty=<ctype> st=<n> df=<q> d=<qs>]*
+                                         [C name=<s> ty=<ctype> d=<qs>]*]*`
+
+answers what `load(dump(...))` returns,
+
+  `ok [S <key>=<tok>]* [A name=… nreal=… out=… [P …]* [C …]*]*`
+
+or `error <where>` when dump or load raises.  ctype ∈ double float int long uint.
+-/
+namespace PysphVerif.Driver.C11
+open PysphVerif.Wire PysphVerif.DumpLoad
+
+instance : PVal Rat := ⟨0, 4294967295⟩
+
+def parseCType? : String → Option CType
+  | "double" => some .double
+  | "float" => some .float
+  | "int" => some .int
+  | "long" => some .long
+  | "uint" => some .uint
+  | _ => none
+
+def showCType : CType → String
+  | .double => "double"
+  | .float => "float"
+  | .int => "int"
+  | .long => "long"
+  | .uint => "uint"
+
+def parseNames? (s : String) : Option (List String) :=
+  if s = "_" then some [] else some (s.splitOn ",")
+
+def showNames (l : List String) : String :=
+  if l.isEmpty then "_" else ",".intercalate l
+
+def parseBool? : String → Option Bool
+  | "0" => some false
+  | "1" => some true
+  | _ => none
+
+/-- split the token list at the marker tokens, keeping the marker as head -/
+def groups (toks : List String) : List (List String) :=
+  let r := toks.foldl (fun (acc : List (List String)) t =>
+    if t = "A" ∨ t = "P" ∨ t = "C" ∨ t = "S" then [t] :: acc else
+    match acc with
+    | [] => [[t]]
+    | g :: gs => (t :: g) :: gs) []
+  r.reverse.map List.reverse
+
+def parseProp (toks : List String) : Option (PropRec Rat) := do
+  let kv := kvs toks
+  let name ← lookup kv "name"
+  let ty ← (lookup kv "ty") >>= parseCType?
+  let st ← (lookup kv "st") >>= parseNat?
+  let df ← (lookup kv "df") >>= parseRat?
+  let d ← (lookup kv "d") >>= parseList? parseRat?
+  pure { name := name, ctype := ty, stride := st, default := df, data := d }
+
+def parseConst (toks : List String) : Option (Const Rat) := do
+  let kv := kvs toks
+  let name ← lookup kv "name"
+  let ty ← (lookup kv "ty") >>= parseCType?
+  let d ← (lookup kv "d") >>= parseList? parseRat?
+  pure { name := name, ctype := ty, data := d }
+
+def parseArrHead (toks : List String) : Option (PArr Rat) := do
+  let kv := kvs toks
+  let name ← lookup kv "name"
+  let nreal ← (lookup kv "nreal") >>= parseNat?
+  let out ← (lookup kv "out") >>= parseNames?
+  pure { name := name, props := [], consts := [], outArrs := out, nReal := nreal }
+
+structure Req where
+  sd : List (String × String)
+  arrays : List (PArr Rat)     -- most recent first
+
+def addToLast (r : Req) (f : PArr Rat → PArr Rat) : Option Req :=
+  match r.arrays with
+  | [] => none
+  | a :: as => some { r with arrays := f a :: as }
+
+def parseGroup (r : Req) (g : List String) : Option Req :=
+  match g with
+  | "S" :: [t] =>
+    (match t.splitOn "=" with
+     | [k, v] => some { r with sd := r.sd ++ [(k, v)] }
+     | _ => none)
+  | "A" :: rest => (parseArrHead rest).map fun a => { r with arrays := a :: r.arrays }
+  | "P" :: rest => (parseProp rest).bind fun p =>
+      addToLast r (fun a => { a with props := a.props ++ [p] })
+  | "C" :: rest => (parseConst rest).bind fun c =>
+      addToLast r (fun a => { a with consts := a.consts ++ [c] })
+  | _ => none
+
+def showProp (p : PropRec Rat) : String :=
+  s!"P name={p.name} ty={showCType p.ctype} st={p.stride} df={showRat p.default} d={showList showRat p.data}"
+
+def showConst (c : Const Rat) : String :=
+  s!"C name={c.name} ty={showCType c.ctype} d={showList showRat c.data}"
+
+def showArr (a : PArr Rat) : String :=
+  " ".intercalate ([s!"A name={a.name} nreal={a.nReal} out={showNames a.outArrs}"]
+    ++ a.props.map showProp ++ a.consts.map showConst)
+
+def showResult (r : List (String × String) × List (String × PArr Rat)) : String :=
+  " ".intercalate (["ok"] ++ r.1.map (fun e => s!"S {e.1}={e.2}") ++ r.2.map (fun e => showArr e.2))
+
+def handle (line : String) : String :=
+  match groups (tokens line) with
+  | ("rt" :: head) :: gs =>
+    let kv := kvs head
+    match lookup kv "fmt", (lookup kv "det") >>= parseBool?, (lookup kv "real") >>= parseBool?,
+          (lookup kv "comp") >>= parseBool? with
+    | some fmt, some det, some real, some comp =>
+      (match gs.foldlM parseGroup { sd := [], arrays := [] } with
+       | none => "bad-op"
+       | some req =>
+         let arrays := req.arrays.reverse
+         let o : Opts := { detailed := det, onlyReal := real, compress := comp }
+         let file : Option (Option (File Rat String)) :=
+           if fmt = "npz" then some (dump .npz o arrays req.sd)
+           else if fmt = "hdf5" then some (dump .hdf5 o arrays req.sd)
+           else if fmt = "v1" then some (dumpV1 o arrays req.sd)
+           else none
+         match file with
+         | none => "bad-op"
+         | some none => "error dump"
+         | some (some f) =>
+           match load f with
+           | .error _ => "error load"
+           | .ok r => showResult r)
+    | _, _, _, _ => "bad-op"
+  | _ => "bad-op"
+
+end PysphVerif.Driver.C11
+
+def main : IO Unit := PysphVerif.Driver.loopPure PysphVerif.Driver.C11.handle
